@@ -45,7 +45,7 @@ PROBES = ["resumed_id", "resumed_ticket10", "resumed_ticket13",
           "rotated_key", "evicted", "tampered", "foreign", "fatal_close",
           "crash", "changed_hello", "client_auth_resumed", "api_refused",
           "external_psk", "external_psk_over_ticket", "policy_changed",
-          "policy_excludes_session"]
+          "policy_excludes_session", "held_open", "version_upgrade"]
 COMPONENTS_REAL = ["tlslite client/server resumption paths, SessionCache, "
                    "ticket encryption/decryption, Session/Ticket objects"]
 COMPONENTS_STUB = ["socket", "os.urandom", "time.time (per-node SimClock)"]
@@ -133,8 +133,12 @@ def run(job, streams=None):
     from tlslite.errors import TLSAlert
     from tlslite.messages import Alert
     seed = job["seed"]
+    if streams is None and job.get("preset") is not None:
+        streams = job["preset"]
     ch = kernel.Chooser(seed=seed) if streams is None else \
         kernel.Chooser(streams=streams)
+    if job.get("fam") == "shared":
+        probes_shared = True
     sim = nodes.new_run(seed, chooser=ch, max_steps=400000, sched="first")
     cclock = kernel.SimClock()
     clocks = {"A": kernel.SimClock(), "B": kernel.SimClock()}
@@ -178,6 +182,9 @@ def run(job, streams=None):
             sc["cset"]["cipherNames"] = mods["ciphers"]
         if mods.get("psk"):
             sc["cset"]["pskConfigs"] = [list(scen.PSK_HEX) + [mods["psk"]]]
+        if mods.get("upgrade"):
+            sc["cset"]["maxVersion"] = [3, 4]
+            sc["sset"]["maxVersion"] = [3, 4]
         cnode = kernel.Node("c%d" % i, seed, cclock)
         snode = kernel.Node("s%d" % i, seed, S.clock)
         pair = nodes.Pair(sim, sc, policy="ideal", cnode=cnode, snode=snode,
@@ -206,8 +213,10 @@ def run(job, streams=None):
         obs = observe.observe(pair, tc, ts)
         info["obs"] = obs
         resumed = None
+        nver = tuple(obs["sh"]["version"]) if "sh" in obs else tuple(ver)
+        info["neg_ver"] = nver
         if "sh" in obs:
-            if ver == (3, 4):
+            if nver == (3, 4):
                 resumed = 41 in obs["sh"]["ext"]
                 if resumed:
                     idents = psk_identities(
@@ -262,6 +271,20 @@ def run(job, streams=None):
         sim.eps.remove(pair.s)
         return st
 
+    held = []
+
+    def release(info, rec, how):
+        finish(info, how)
+        probes[{"fatal_c": "fatal_close", "fatal_s": "fatal_close",
+                "crash": "crash"}.get(how, "clean_close")] = 1
+        pair_ = info["pair"]
+        if pair_.c.conn.session is not None and \
+                not pair_.c.conn.session.resumable:
+            rec["lin_c"]["bad"] = True
+        if pair_.s.conn.session is not None and \
+                not pair_.s.conn.session.resumable:
+            rec["lin_s"]["bad"] = True
+
     nops = 3 + ch.draw(7, "h.n")
     first = True
     for _ in range(nops):
@@ -280,6 +303,9 @@ def run(job, streams=None):
             mods = {}
             if stored and ch.draw(4, "h.offer") != 3:
                 offer = stored[ch.draw(len(stored), "h.which")]
+                if held and ch.draw(2, "h.offerheld") == 1:
+                    # the session of a connection that is still open
+                    offer = held[ch.draw(len(held), "h.whichheld")][1]
                 ver = offer["ver"]
                 fl = offer.get("fl", fl) if fl == "srp" or \
                     offer.get("fl") == "srp" else fl
@@ -301,11 +327,16 @@ def run(job, streams=None):
                     set(mods["ciphers"]) & set(srv[sname].ciphers)):
                 # client and server policies would share no cipher at all
                 del mods["ciphers"]
+            if offer and tuple(ver) < (3, 4) and not mods and \
+                    fl != "srp" and ch.draw(6, "h.upgrade") == 1:
+                # both sides meanwhile support TLS 1.3 as well: the old
+                # session belongs to another protocol version
+                mods["upgrade"] = True
             if tuple(ver) == (3, 4) and srv[sname].psk and \
                     ch.draw(3, "h.psk") == 1:
                 mods["psk"] = srv[sname].psk
-            end = ["clean", "clean", "fatal_c", "fatal_s", "crash"][
-                ch.draw(5, "h.end")]
+            end = ["clean", "clean", "fatal_c", "fatal_s", "crash", "hold"][
+                ch.draw(6, "h.end")]
             hist.append(["connect", sname, list(ver), fl,
                          offer["idx"] if offer else None, mods, end])
             info = connect(sname, ver, fl, offer, mods)
@@ -355,15 +386,20 @@ def run(job, streams=None):
                   "plain full handshake failed: client=%r server=%r" %
                   (info["oc"].exc, info["os"].exc))
             if info["ok"]:
+                ver = info["neg_ver"]
                 if S.use_cache and not info["resumed_wire"] and \
                         ver < (3, 4):
                     S.inserted += 1
-                st = finish(info, end)
-                probes[{"fatal_c": "fatal_close", "fatal_s": "fatal_close",
-                        "crash": "crash"}.get(end, "clean_close")] = 1
                 pair = info["pair"]
                 sess = pair.c.conn.session
+                # sticky "was invalidated" flags per Session object (the
+                # library's own flag could be switched back on)
+                lin_c = offer["lin_c"] if offer and \
+                    sess is offer["session"] else {"bad": False}
+                lin_s = offer["lin_s"] if offer and pair.s.conn.session is \
+                    offer["server_session"] else {"bad": False}
                 rec = {"idx": len(stored), "session": sess,
+                       "lin_c": lin_c, "lin_s": lin_s,
                        "server": sname, "ver": ver,
                        "suite": info["view_c"]["suite"],
                        "ems": info["view_c"]["ems"],
@@ -378,7 +414,6 @@ def run(job, streams=None):
                        and not info["resumed_wire"],
                        "resumed_conn": bool(info["resumed_wire"]), "fl": fl,
                        "resumed_via": info.get("mech"),
-                       "client_invalidated": not sess.resumable,
                        "end": end}
                 if info["resumed_wire"] and offer:
                     # a resumed connection carries the original's identity
@@ -388,6 +423,12 @@ def run(job, streams=None):
                     if ver < (3, 4) and not sess.tls_1_0_tickets:
                         rec["key"] = offer["key"]
                 stored.append(rec)
+                if end == "hold":
+                    # the connection stays open while others come and go
+                    held.append((info, rec))
+                    probes["held_open"] = 1
+                else:
+                    release(info, rec, end)
             else:
                 pair = info["pair"]
                 for ep in (pair.c, pair.s):
@@ -443,6 +484,13 @@ def run(job, streams=None):
             hist.append(["evict", S.name, n])
             cache_fill(S, n, viol, hist)
             probes["evicted"] = 1
+        elif k in (8, 9) and held and (k == 9 or
+                                       ch.draw(2, "h.relmore") == 1):
+            info_, rec_ = held.pop(ch.draw(len(held), "h.rel"))
+            how = ["clean", "fatal_c", "fatal_s", "crash"][
+                ch.draw(4, "h.relhow")]
+            hist.append(["release", rec_["idx"], how])
+            release(info_, rec_, how)
         elif k in (8, 9) and stored:
             src = stored[ch.draw(len(stored), "h.tamp")]
             hist.append(["tamper", src["idx"]])
@@ -478,6 +526,9 @@ def run(job, streams=None):
                 [bytes(t.ticket) for t in (r0.tls_1_0_tickets or [])]
             cl["tampered"] = False if same else part
             cl["tampered_from"] = src["idx"]
+            # the copy is another Session object: what happens to the
+            # original later does not reach it
+            cl["lin_c"] = {"bad": src["lin_c"]["bad"]}
             cl["idx"] = len(stored)
             stored.append(cl)
             probes["tampered"] = 1
@@ -530,10 +581,13 @@ def judge_attempt(info, offer, S, mods, sname, v, probes, srv):
     reasons = []          # hard reasons: must NOT resume, must fall back
     soft = []             # inconsistent ClientHello: alert or full handshake
     unsure = False
+    if info.get("neg_ver") and tuple(info["neg_ver"]) != tuple(ver):
+        reasons.append("session of another protocol version")
+        probes["version_upgrade"] = 1
     if sname != offer["server"]:
         reasons.append("foreign")
         probes["foreign"] = 1
-    if offer.get("client_invalidated"):
+    if offer["lin_c"]["bad"] or not offer["session"].resumable:
         # the client's own Session object was invalidated by a fatal alert it
         # received: it must not be offered, let alone resumed
         reasons.append("client session invalidated by a fatal error")
@@ -568,7 +622,7 @@ def judge_attempt(info, offer, S, mods, sname, v, probes, srv):
             reasons.append("evicted")
         elif newer >= S.max_entries - 1:
             unsure = True
-        if not offer["server_session"].resumable:
+        if offer["lin_s"]["bad"] or not offer["server_session"].resumable:
             cached = S.cache.entriesDict.get(bytes(sess.sessionID))
             if cached is not None and cached is not offer["server_session"] \
                     and offer.get("resumed_via") == "ticket10":
@@ -668,9 +722,36 @@ def judge_attempt(info, offer, S, mods, sname, v, probes, srv):
                   "server=%r (%s)" % (info["oc"].exc, info["os"].exc, ctx))
 
 
+def shared_session_jobs(base_seed):
+    """Two connections that share one session are open at the same time
+    (the second resumed from the first); they end in every order and every
+    way; then the session is offered once more.  Enumerated skeleton, passed
+    as preset choice streams."""
+    jobs = []
+    i = 0
+    for ver in (0, 2, 3):                 # TLS 1.2 / 1.0 / 1.1
+        for tick in (1, 0):               # session ID / RFC 5077 ticket
+            for fl in (0, 1):             # without / with client auth
+                for first in (0, 1):
+                    for how1 in range(4):
+                        for how2 in range(4):
+                            jobs.append({
+                                "seed": base_seed * 1000003 + 900000 + i,
+                                "fam": "shared", "preset": {
+                                    "h.n": [2], "h.kind": [0, 9, 9, 0],
+                                    "h.ver": [ver], "h.fl": [fl, fl, fl],
+                                    "A.tick": [tick], "h.end": [5, 5, 0],
+                                    "h.offerheld": [1, 0],
+                                    "h.rel": [first, 0],
+                                    "h.relhow": [how1, how2]}})
+                            i += 1
+    return jobs
+
+
 def plan(tier, base_seed):
     n = {"quick": 2500, "thorough": 300000}[tier]
     jobs = [{"seed": base_seed * 1000003 + i} for i in range(n)]
+    jobs += shared_session_jobs(base_seed)
     for j in jobs[:3]:
         j["keep"] = True
     return jobs
